@@ -27,6 +27,7 @@ type written struct {
 	payloads [][]byte // JSON payload bodies successfully written through the API (latest last)
 	opaque   bool     // an insert succeeded since: content is the JSON library's business
 	seeded   bool     // content (also) written by the harness directly
+	readable bool     // last written through the API as a JSON object in JSON format: a get must find it
 }
 
 func jsonEqualModuloMeta(a, b []byte) bool {
@@ -191,7 +192,7 @@ func monitor(c hxlib.Case, outs []string) (vs []hxlib.Violation) {
 					w = &written{}
 					store[key] = w
 				}
-				w.seeded, w.opaque = true, false
+				w.seeded, w.opaque, w.readable = true, false, false
 				if f[0] == "seedstruct" {
 					w.payloads = [][]byte{unhx(f[2])}
 				} else {
@@ -208,7 +209,7 @@ func monitor(c hxlib.Case, outs []string) (vs []hxlib.Violation) {
 		default:
 			continue
 		}
-		ownOK := false
+		ownOK, ownErr := false, false
 		if batch != "-" {
 			for _, e := range strings.Fields(batch) {
 				ce := parseCanon(e)
@@ -229,6 +230,9 @@ func monitor(c hxlib.Case, outs []string) (vs []hxlib.Violation) {
 				}
 				if ce.op == string(cls.Op) && ce.typ == "success" {
 					ownOK = true
+				}
+				if ce.op == string(cls.Op) && ce.typ == "error" {
+					ownErr = true
 				}
 				// read-back
 				if ce.typ == "ok" || ce.typ == "chg" || ce.typ == "new!" || ce.typ == "upd!" {
@@ -259,11 +263,21 @@ func monitor(c hxlib.Case, outs []string) (vs []hxlib.Violation) {
 					}
 					w.opaque, w.seeded = false, false
 					w.payloads = append(w.payloads, cls.Payload[1:])
+					w.readable = cls.Payload[0] == 'J' && isJSONObject(cls.Payload[1:])
 				}
 			case "insert":
 				if ownOK {
 					if w := store[normKey(cls.Arg)]; w != nil {
 						w.opaque = true
+						w.readable = false // what the JSON library made of it is not tracked
+					}
+				}
+			case "get":
+				// "a record written through the API is read back": an acknowledged write of a JSON object that
+				// nothing has touched since cannot be answered with an error (the sinkhole backend discards by design)
+				if w := store[normKey(cls.Arg)]; w != nil && w.readable && ownErr {
+					if dn := strings.SplitN(normKey(cls.Arg), ":", 2)[0]; kindOfDb[dn] != "s" {
+						add(i, "C13:readback-lost:m:get", fmt.Sprintf("the record %q was written through the API (acknowledged with success) and not touched since, but get answers with an error: %s", cls.Arg, o))
 					}
 				}
 			case "delete":
